@@ -2,6 +2,7 @@ package props
 
 import (
 	"bufio"
+	"io"
 	"os"
 	"path"
 	"path/filepath"
@@ -25,6 +26,7 @@ type TypedDocCase struct {
 	Acc     map[string][]string `json:"acc"`  // accessor expectations, kind specific
 	AccDeps map[string]DepAST   `json:"accDeps,omitempty"`
 	Feats   []string            `json:"feats"`
+	Rd      string              `json:"rd,omitempty"` // "" or a key of oddReaders: how the source delivers its bytes
 }
 
 var bufSizes = []int{16, 64, 200, 1024, 4096, 4096, 8192, 65536}
@@ -576,7 +578,11 @@ func checkTypedDoc(c TypedDocCase, r *Recorder) error {
 	if size < 16 {
 		size = 4096
 	}
-	rd := bufio.NewReaderSize(strings.NewReader(c.Text), size)
+	var src io.Reader = strings.NewReader(c.Text)
+	if mk, ok := oddReaders[c.Rd]; ok {
+		src = mk(src)
+	}
+	rd := bufio.NewReaderSize(src, size)
 	switch c.Kind {
 	case "dsc":
 		d, err := control.ParseDsc(rd, c.Path)
@@ -755,11 +761,17 @@ func checkTypedDoc(c TypedDocCase, r *Recorder) error {
 
 var specC10 = Register(&Spec[TypedDocCase]{
 	Prop: "C10", Name: "typed",
-	Rule: "six document kinds rendered from a field model in the layout the Debian tools emit: .dsc (Binary 'a, b, c' single-line or folded, Architecture list, Uploaders, Build-Depends* single-line / folded / wrap-and-sort, Package-List, Checksums-Sha1/-Sha256, Files), .changes (space-separated Binary, Closes, multi-line Description and Changes with ' .', 5-column Files), debian/control (source paragraph + 1..4 binary paragraphs, folded Uploaders and dependency fields with substvars, Essential, multi-line Description), Packages (Source 'name (ver)', Installed-Size, folded Tag, Build-Ids, dependency accessors), Sources (folded Binary, Standards-Version, Vcs-*, Directory, accessors) and DEBIAN/control; unknown X- fields sprinkled in; the bufio.Reader handed to the Parse* functions has a generated size 16..65536. Oracle: every struct field whose Debian field is in the model equals the model (scalars verbatim / reader convention, versions by parts, architectures by triple, dependencies against the model AST, comma/space lists as trimmed elements, file lists as (algorithm, hash, size, name[, section, priority])), accessors agree with the model. Non-trivial: a folded field, >= 2 binaries, >= 2 files or >= 2 paragraphs; distinct by (kind, text, buffer size).",
+	Rule: "six document kinds rendered from a field model in the layout the Debian tools emit: .dsc (Binary 'a, b, c' single-line or folded, Architecture list, Uploaders, Build-Depends* single-line / folded / wrap-and-sort, Package-List, Checksums-Sha1/-Sha256, Files), .changes (space-separated Binary, Closes, multi-line Description and Changes with ' .', 5-column Files), debian/control (source paragraph + 1..4 binary paragraphs, folded Uploaders and dependency fields with substvars, Essential, multi-line Description), Packages (Source 'name (ver)', Installed-Size, folded Tag, Build-Ids, dependency accessors), Sources (folded Binary, Standards-Version, Vcs-*, Directory, accessors) and DEBIAN/control; unknown X- fields sprinkled in; the bufio.Reader handed to the Parse* functions has a generated size 16..65536 and reads from a plain, one-byte, half or data-with-EOF reader. Oracle: every struct field whose Debian field is in the model equals the model (scalars verbatim / reader convention, versions by parts, architectures by triple, dependencies against the model AST, comma/space lists as trimmed elements, file lists as (algorithm, hash, size, name[, section, priority])), accessors agree with the model. Non-trivial: a folded field, >= 2 binaries, >= 2 files or >= 2 paragraphs; distinct by (kind, text, buffer size).",
 	Check: checkTypedDoc,
 })
 
 func genTypedDoc(t *rapid.T) TypedDocCase {
+	c := genTypedDocPlain(t)
+	c.Rd = rapid.SampledFrom([]string{"", "", "", "one-byte reader", "half reader", "data-with-EOF reader"}).Draw(t, "rd")
+	return c
+}
+
+func genTypedDocPlain(t *rapid.T) TypedDocCase {
 	switch rapid.IntRange(0, 5).Draw(t, "kind") {
 	case 0:
 		return genDscDoc(t)
